@@ -19,6 +19,7 @@ is evaluated against the real resolver (`translated_vs_python`)."""
 from __future__ import annotations
 
 import contextlib
+import copy
 import itertools
 import json
 import random
@@ -433,6 +434,10 @@ PREDS = {
     "not-in": lambda c, x, y: x not in c,
     "and-not": lambda c, x, y: x in c and y not in c,
     "permit+deny": lambda c, x, y: x in c and y not in c,
+    # policies that never mention subject.roles: the expansion is still what the audit record (and anything reading `subject`) sees
+    "no-condition": lambda c, x, y: True,
+    "other-attribute": lambda c, x, y: True,
+    "whole-subject": lambda c, x, y: True,
 }
 TEMPLATES = list(PREDS)
 
@@ -446,7 +451,13 @@ def policy_of(name: str, x: str, y: str) -> dict:
         return {"algorithm": "deny-overrides",
                 "rules": [{"id": "p", "effect": "permit", "actions": ["read"], "resource": {"type": "doc"}, "condition": {"hasAny": [R, [x]]}},
                           {"id": "d", "effect": "deny", "actions": ["read"], "resource": {"type": "doc"}, "condition": {"contains": [R, y]}}]}
+    if name == "no-condition":
+        p = one(True)
+        del p["rules"][0]["condition"]
+        return p
     return one({
+        "other-attribute": {"==": [{"attr": "resource.type"}, "doc"]},
+        "whole-subject": {"!=": [{"attr": "subject"}, None]},
         "in": {"in": [x, R]},
         "contains": {"contains": [R, x]},
         "hasAny": {"hasAny": [R, [x, y]]},
@@ -657,6 +668,8 @@ def shrink_graph_roles(graph_w: list, roles, fails0) -> tuple[list, object]:
 
 def shrink(case: dict) -> dict:
     try:
+        if case["part"] == "engine-overlap":
+            return case
         if case["part"] == "resolver":
             if not resolver_fails(case["graph"], case["roles"]):
                 return case
@@ -765,12 +778,63 @@ def translated_vs_python(run: lib.Run) -> tuple[bool, str]:
 # ----------------------------------------------------------------------------- check / replay
 
 
+def overlapping_same_subject(run: lib.Run) -> None:
+    """two evaluations of the SAME subject id with DIFFERENT role lists overlapping on one engine and one loop (a token being upgraded,
+    two sessions of one user): the first is parked inside the async resolver while the second runs to completion.  Each sees exactly the
+    closure of ITS OWN roles — in its conditions and in its audit record."""
+    import asyncio
+    from rbacx.core.engine import Guard
+    graph = {"manager": ["employee"], "employee": ["user"], "guest": []}
+    pol = policy_of("contains", "employee", "user")
+    for slow_first in (["manager"], ["guest"]):
+        other = ["guest"] if slow_first == ["manager"] else ["manager"]
+
+        async def scenario():
+            gate, entered = asyncio.Event(), asyncio.Event()
+            inner = StaticRoleResolver(graph)
+
+            class Res:
+                async def expand(self, roles):
+                    if list(roles) == slow_first and not gate.is_set():
+                        entered.set()
+                        await gate.wait()
+                    return inner.expand(roles)
+            events: list = []
+            g = Guard(copy.deepcopy(pol), role_resolver=Res(), logger_sink=real.AsyncRecLogger(events))
+            qa = real.make_request(make_req(slow_first))
+            qb = real.make_request(make_req(other))
+            ta = asyncio.ensure_future(g.evaluate_async(*qa))
+            await asyncio.wait_for(entered.wait(), 5)
+            db = await asyncio.wait_for(g.evaluate_async(*qb), 5)
+            gate.set()
+            da = await asyncio.wait_for(ta, 5)
+            seen = [((proto.dec(ev["env"]) or {}).get("subject") or {}).get("roles") for ev in events if ev.get("ev") == "audit"]
+            return da.allowed, db.allowed, seen
+        run.evaluations += 1
+        run.count("overlap:same-subject-id")
+        try:
+            a_allowed, b_allowed, seen = asyncio.run(scenario())
+        except Exception as e:  # noqa: BLE001
+            run.spec_failures.append({"part": "engine-overlap", "graph": wire_graph(graph), "roles": slow_first, "why": f"{type(e).__name__}: {e}"})
+            return
+        want = {tuple(r): StaticRoleResolver(graph).expand(r) for r in (slow_first, other)}
+        ok = (a_allowed == ("employee" in want[tuple(slow_first)]) and b_allowed == ("employee" in want[tuple(other)])
+              and sorted(map(tuple, seen)) == sorted(map(tuple, want.values())))
+        if not ok:
+            run.spec_failures.append({"part": "engine-overlap", "graph": wire_graph(graph), "roles": slow_first, "other_request_roles": other,
+                                      "policy": pol, "held_allowed": a_allowed, "other_allowed": b_allowed, "audit_roles": seen,
+                                      "expected_closures": {",".join(k): v for k, v in want.items()},
+                                      "why": "two overlapping evaluations of one subject id with different roles did not each see the closure of their own roles"})
+            return
+
+
 def run_all(run: lib.Run, audit: dict, scale: int = 1) -> None:
     run_resolver_part(run, scale)
     if run.extra.get("aborted_on_timeout"):
         return      # the engine part would wait for the same non-terminating call
     for batch in chunks(engine_cases(run, scale), 2000):
         run_engine_batch(run, audit, batch)
+    overlapping_same_subject(run)
 
 
 def check(run: lib.Run, audit: dict) -> int:
@@ -856,6 +920,12 @@ def replay(run: lib.Run, audit: dict, path: str) -> int:
         print("expand now:", impl_expand(graph, c["roles"]), "recorded:", c.get("impl"), "translated:", c.get("model"))
         return 0
     graph = {k: list(ps) for k, ps in c["graph"]}
+    if c["part"] == "engine-overlap":
+        overlapping_same_subject(run)
+        now = [f for f in run.spec_failures if f.get("part") == "engine-overlap"]
+        print("now:", json.dumps(now[0], default=str)[:1500] if now else "each overlapping evaluation saw the closure of its own roles")
+        print("recorded:", json.dumps(c, default=str)[:1500])
+        return 1 if now else 0
     if c["part"] == "resolver":
         try:
             with deadline(5.0):
